@@ -295,6 +295,110 @@ func c19Plan(quick bool) *FuncPlan {
 			}
 			return insideOracle("prioritylock", 1, nil)(lg)
 		})})
+	// PriorityLock: a waiter is queued, the holder's Unlock has RETURNED, then a low-priority try-lock arrives on
+	// another connection: the key was handed to the waiter at the release, the newcomer must be refused
+	scens = append(scens, &FuncScenario{Name: "prioritylock-newcomer-after-release", Bound: bound, Desc: []string{"root holds PriorityLock(prio 9); p9 (prio 9) queues; root unlocks once it is queued; after Unlock has returned a prio-1 try-lock arrives on a third connection"},
+		Sc: c19Scenario(3, func(node hapi.Node, cs []*cl.Client, lg *c19Log, spawn func(string, func()), wait func()) {
+			h := cs[0].PriorityLock(ckey(7), 9, 9, 60)
+			if _, e := h.Lock(); e != nil {
+				lg.add("!hold:%v", e)
+				return
+			}
+			pl := cs[1].PriorityLock(ckey(7), 9, 20, 60)
+			spawn("p9", func() {
+				if _, e := pl.Lock(); e != nil {
+					lg.add("!p9:%v", e)
+					return
+				}
+				lg.add("+p9")
+			})
+			released := false
+			spawn("holder", func() {
+				vrt.R.Block(func() bool {
+					ks := node.Snapshot().Key(0, ckey(7))
+					return ks != nil && len(ks.Waiters) == 1
+				})
+				if _, e := h.Unlock(); e != nil {
+					lg.add("!unlock:%v", e)
+				}
+				lg.add("released")
+				released = true
+			})
+			nl := cs[2].PriorityLock(ckey(7), 1, 0, 60)
+			spawn("newcomer", func() {
+				vrt.R.Block(func() bool { return released })
+				if _, e := nl.Lock(); e != nil {
+					lg.add("newcomer-refused")
+					return
+				}
+				lg.add("+newcomer")
+			})
+			wait()
+		}, func(lg *c19Log) []explore.Violation {
+			s := strings.Join(lg.ev, " ")
+			if strings.Contains(s, "!") {
+				return []explore.Violation{{Sig: "C19:prioritylock-error", Msg: s}}
+			}
+			if strings.Contains(s, "+newcomer") {
+				return []explore.Violation{{Sig: "C19:prioritylock-newcomer-overtakes-waiter", Msg: "a priority-9 request was queued when the holder released; a priority-1 try-lock sent after the holder's Unlock had returned was granted the key: " + s}}
+			}
+			if !strings.Contains(s, "+p9") {
+				return []explore.Violation{{Sig: "C19:prioritylock-starved", Msg: s}}
+			}
+			return nil
+		})})
+	// the same without waiting for the reply: the try-lock (issued inside the server process, no connection of its
+	// own) runs at any moment relative to the release. Before the release the holder has the key, from the release on
+	// the queued priority-9 request has it and never gives it up: the try-lock cannot be granted in any order of events
+	scens = append(scens, &FuncScenario{Name: "prioritylock-newcomer-during-release", Bound: bound, Desc: []string{"root holds PriorityLock(prio 9); p9 (prio 9) queues and keeps the key once it has it; root unlocks once it is queued; a prio-1 try-lock runs at any moment"},
+		Sc: c19Scenario(2, func(node hapi.Node, cs []*cl.Client, lg *c19Log, spawn func(string, func()), wait func()) {
+			h := cs[0].PriorityLock(ckey(7), 9, 9, 60)
+			if _, e := h.Lock(); e != nil {
+				lg.add("!hold:%v", e)
+				return
+			}
+			pl := cs[1].PriorityLock(ckey(7), 9, 20, 60)
+			spawn("p9", func() {
+				if _, e := pl.Lock(); e != nil {
+					lg.add("!p9:%v", e)
+					return
+				}
+				lg.add("+p9")
+			})
+			mc := node.NewMemClient("newcomer")
+			spawn("holder", func() {
+				vrt.R.Block(func() bool {
+					ks := node.Snapshot().Key(0, ckey(7))
+					return ks != nil && len(ks.Waiters) == 1
+				})
+				spawn("newcomer", func() {
+					cmd := hapi.Cmd{Type: 1, Req: 9, Key: 7, Id: 99, Timeout: 0, TimeoutFlag: 0x10, Expried: 60, Rcount: 1}.Build()
+					mc.Do(cmd)
+				})
+				if _, e := h.Unlock(); e != nil {
+					lg.add("!unlock:%v", e)
+				}
+				lg.add("released")
+			})
+			wait()
+			for _, e := range node.Events() {
+				if e.Client == "newcomer" && e.Req == 9 {
+					lg.add("newcomer=%s", hapi.ResultName(e.Result))
+				}
+			}
+		}, func(lg *c19Log) []explore.Violation {
+			s := strings.Join(lg.ev, " ")
+			if strings.Contains(s, "!") && !strings.Contains(s, "newcomer=SUCCED") {
+				return []explore.Violation{{Sig: "C19:prioritylock-error", Msg: s}}
+			}
+			if strings.Contains(s, "newcomer=SUCCED") {
+				return []explore.Violation{{Sig: "C19:prioritylock-newcomer-overtakes-waiter", Msg: "a priority-9 request was queued when the holder released and never gives the key up; a priority-1 try-lock racing with the release was granted the key: " + s}}
+			}
+			if !strings.Contains(s, "+p9") || !strings.Contains(s, "newcomer=") {
+				return []explore.Violation{{Sig: "C19:prioritylock-starved", Msg: s}}
+			}
+			return nil
+		})})
 	// many goroutines share ONE client connection; their replies arrive in one burst (the server -> client
 	// direction is held back until all are answered): every caller must get the reply of its own request
 	for _, n := range []int{4, 9, 12, 20} {
